@@ -52,6 +52,7 @@ class BuiltinTables:
         call = find_method(rt, "DefaultFunction", "call")
         self.call_fn = call
         cm = next(matches_in(call["body"], lambda e: e["k"] == "Path" and e["p"] == "self"))
+        self.call_match = cm
         self.call = {}
         self.call_catch_all = None
         for v, arm, alt in arm_table(cm):
@@ -63,6 +64,7 @@ class BuiltinTables:
         teb = find_method(cmj, "BuiltinCosts", "to_ex_budget")
         self.cost_fn = teb
         tm = next(matches_in(teb["body"], lambda e: e["k"] == "Path" and e["p"] == "fun"))
+        self.cost_match = tm
         self.cost = {}
         self.cost_catch_all = None
         for v, arm, alt in arm_table(tm):
@@ -74,6 +76,7 @@ class BuiltinTables:
         ab = sh.file(AB)
         fdf = find_fn(ab, "from_default_function")
         am = next(matches_in(fdf["body"], lambda e: e["k"] == "Path" and e["p"] == "builtin"))
+        self.aiken_match = am
         self.aiken = {}
         for v, arm, alt in arm_table(am):
             if v is not None:
@@ -143,3 +146,10 @@ class BuiltinTables:
                 binds[n["pat"]["name"]] = sh.nsrc(AB, n["init"])
         ngen = len([1 for n in walk(arm["body"]) if n["k"] == "Call" and call_name(n) == "Type::generic_var"])
         return {"params": params, "ret": ret, "arity": ar, "generics": ngen, "binds": binds}
+
+
+def rule_one_arm(t, rep, rid):
+    """the three per-builtin tables are read as variant -> arm maps: no builtin may have a second (guarded) arm"""
+    one_arm_per_variant(rep, rid, "DefaultFunction::call", t.sh, RT, t.call_match)
+    one_arm_per_variant(rep, rid, "BuiltinCosts::to_ex_budget", t.sh, CM, t.cost_match)
+    one_arm_per_variant(rep, rid, "from_default_function", t.sh, AB, t.aiken_match)
